@@ -15,7 +15,7 @@ import traceback
 from .index import AnalysisError
 from .report import Check
 
-CLAIMED = ["C01", "C03", "C04", "C05", "C06", "C07", "C09", "C10", "C11", "C12", "C13", "C14", "C15", "C16", "C17", "C19", "C20"]
+CLAIMED = ["C01", "C02", "C03", "C04", "C05", "C06", "C07", "C09", "C10", "C11", "C12", "C13", "C14", "C15", "C16", "C17", "C19", "C20"]
 
 
 def run_check(pid: str, tier: str, root: str, write=True, quiet=False) -> int:
